@@ -352,14 +352,17 @@ pub fn generate_detected_config(result: &DetectionResult) -> String {
     if result.is_monorepo && !result.subprojects.is_empty() {
         output.push_str("# Per-subdirectory rules (monorepo)\n");
         for subproject in &result.subprojects {
+            // Directory names are arbitrary: keep the comment on one line, match the name
+            // literally (glob metacharacters escaped) and write it as an escaped TOML string
             let _ = writeln!(
                 output,
                 "\n# {} ({})",
-                subproject.path,
+                subproject.path.escape_debug(),
                 subproject.project_type.name()
             );
             output.push_str("[[content.rules]]\n");
-            let _ = writeln!(output, "pattern = \"{}/**\"", subproject.path);
+            let pattern = format!("{}/**", globset::escape(&subproject.path));
+            let _ = writeln!(output, "pattern = {}", toml::Value::String(pattern));
             let _ = writeln!(
                 output,
                 "max_lines = {}",
